@@ -31,8 +31,8 @@ PLAN = {
         thorough=[*shards("TestC04Rapid", 12, checks=40000), *shards("TestC04Enum", 4), dict(fuzz="FuzzC04Rapid", seconds=60)],
     ),
     "C10": dict(
-        quick=[dict(test="TestC10Rapid", checks=1500), *shards("TestC10Aborts", 6)],
-        thorough=[*shards("TestC10Rapid", 12, checks=20000), *shards("TestC10Aborts", 4), dict(fuzz="FuzzC10", seconds=120)],
+        quick=[dict(test="TestC10Rapid", checks=1500), *shards("TestC10Aborts", 6), *shards("TestC10ManyConns", 2)],
+        thorough=[*shards("TestC10Rapid", 12, checks=20000), *shards("TestC10Aborts", 4), *shards("TestC10ManyConns", 4), dict(fuzz="FuzzC10", seconds=120)],
     ),
     "C05": dict(
         quick=[SELF_IDL, dict(test="TestC05Rapid", checks=20000), *shards("TestC05Enum", 4)],
